@@ -3,1797 +3,80 @@
 package layer
 
 // C07 — each layer is served as a correct overlayfs lower directory of the OCI layer.
-//
-// Layers are built by the REAL builder (util/testutil.BuildEStargz -> estargz.Build) from generated
-// tars, opened through a metadata store, and served by the REAL node code (newNode, exactly what
-// layer.RootNode does).  The node API (Readdir, Lookup, Getattr, Getxattr, Listxattr) is called
-// in-process in random orders for every directory; every call is emitted for the Lean model
-// (SV.Overlay via svdriver_c07) and, independently of that model, the property's predicate is evaluated
-// on the answers by an oracle that only knows the source tar (spec) of the layer.
+// Memory metadata store, in-package: the layer is served by newNode (exactly what layer.RootNode does)
+// with a blob whose size / fetched size the harness controls.  Generator, schedule and oracle live in
+// internal/verifc07 (shared with the db-store harness in the cmd module).
 
 import (
-	"context"
-	"encoding/hex"
-	"encoding/json"
-	"errors"
 	"fmt"
 	"io"
-	"os"
-	"sort"
-	"strings"
 	"syscall"
 	"testing"
 
-	"github.com/containerd/log"
 	"github.com/containerd/stargz-snapshotter/cache"
 	"github.com/containerd/stargz-snapshotter/estargz"
 	"github.com/containerd/stargz-snapshotter/fs/reader"
-	"github.com/containerd/stargz-snapshotter/internal/verifutil"
-	"github.com/containerd/stargz-snapshotter/metadata"
+	"github.com/containerd/stargz-snapshotter/internal/verifc07"
 	memorymetadata "github.com/containerd/stargz-snapshotter/metadata/memory"
-	tutil "github.com/containerd/stargz-snapshotter/util/testutil"
 	fusefs "github.com/hanwen/go-fuse/v2/fs"
-	"github.com/hanwen/go-fuse/v2/fuse"
 	digest "github.com/opencontainers/go-digest"
-	"golang.org/x/sys/unix"
 )
 
-const (
-	verifWh     = ".wh."
-	verifMarker = ".wh..wh..opq"
-	verifIFMT   = uint32(syscall.S_IFMT)
-)
+type verifC07Mem struct{}
 
-// verifEnt is one entry of a generated source tar.
-type verifEnt struct {
-	path   string // clean, relative, no trailing slash
-	kind   byte   // d f l(symlink) c b p(fifo) h(hardlink)
-	data   string
-	target string
-	mode   os.FileMode
-	major  int64
-	minor  int64
-	xattrs map[string]string
+func (verifC07Mem) Name() string { return "memory" }
+
+func (verifC07Mem) Consts() string {
+	return fmt.Sprintf("wh=%s opq=%s state=%s pl=%s npl=%s toc=%s xall=%s xtrusted=%s xuser=%s val=%s ifchr=%d sfmode=%d sdmode=%d",
+		verifc07.Hex(whiteoutPrefix), verifc07.Hex(whiteoutOpaqueDir), verifc07.Hex(stateDirName), verifc07.Hex(estargz.PrefetchLandmark),
+		verifc07.Hex(estargz.NoPrefetchLandmark), verifc07.Hex(estargz.TOCTarName), verifc07.HexList(opaqueXattrs[OverlayOpaqueAll]),
+		verifc07.HexList(opaqueXattrs[OverlayOpaqueTrusted]), verifc07.HexList(opaqueXattrs[OverlayOpaqueUser]), verifc07.Hex(opaqueXattrValue),
+		syscall.S_IFCHR, statFileMode, stateDirMode)
 }
 
-func verifTypeOf(k byte) uint32 {
-	switch k {
-	case 'd':
-		return syscall.S_IFDIR
-	case 'l':
-		return syscall.S_IFLNK
-	case 'c':
-		return syscall.S_IFCHR
-	case 'b':
-		return syscall.S_IFBLK
-	case 'p':
-		return syscall.S_IFIFO
-	}
-	return syscall.S_IFREG
-}
-
-func verifHex(s string) string {
-	if s == "" {
-		return "-"
-	}
-	return hex.EncodeToString([]byte(s))
-}
-
-func verifParent(p string) (string, string) {
-	if i := strings.LastIndex(p, "/"); i >= 0 {
-		return p[:i], p[i+1:]
-	}
-	return "", p
-}
-
-func verifJoin(dir, name string) string {
-	if dir == "" {
-		return name
-	}
-	return dir + "/" + name
-}
-
-// ---------------------------------------------------------------------------------------------
-// The layer as the source tar describes it (what the oracle knows).
-
-type verifSpecNode struct {
-	typ uint32
-	ent *verifEnt // nil for implicit directories
-}
-
-type verifSpecTree struct {
-	kids map[string]map[string]*verifSpecNode // dir path -> name -> node
-}
-
-func verifSpecTreeOf(spec []verifEnt) *verifSpecTree {
-	st := &verifSpecTree{kids: map[string]map[string]*verifSpecNode{"": {}}}
-	var mk func(dir string)
-	mk = func(dir string) {
-		if _, ok := st.kids[dir]; ok {
-			return
-		}
-		st.kids[dir] = map[string]*verifSpecNode{}
-		p, n := verifParent(dir)
-		mk(p)
-		if _, ok := st.kids[p][n]; !ok {
-			st.kids[p][n] = &verifSpecNode{typ: syscall.S_IFDIR}
-		}
-	}
-	for i := range spec {
-		e := &spec[i]
-		p, n := verifParent(e.path)
-		mk(p)
-		st.kids[p][n] = &verifSpecNode{typ: verifTypeOf(e.kind), ent: e}
-		if e.kind == 'd' {
-			mk(e.path)
-		}
-	}
-	return st
-}
-
-func verifIsLandmark(n string) bool {
-	return n == estargz.PrefetchLandmark || n == estargz.NoPrefetchLandmark
-}
-
-// verifHiddenRoot: names of the source tar's root that are not content (the builder drops them).
-func verifHiddenRoot(n string) bool { return verifIsLandmark(n) || n == estargz.TOCTarName }
-
-type verifExp struct {
-	typ uint32
-	wh  bool
-}
-
-// expected is the property's translation of one directory of the source tar: a whiteout .wh.X is a
-// character device X unless a real X exists; the opaque marker, root landmarks and the root TOC
-// entry never appear.
-func (st *verifSpecTree) expected(dir string) (map[string]verifExp, bool) {
-	raw := st.kids[dir]
-	exp := map[string]verifExp{}
-	opaque := false
-	real := func(n string) bool {
-		if strings.HasPrefix(n, verifWh) {
-			return false
-		}
-		if dir == "" && verifHiddenRoot(n) {
-			return false
-		}
-		_, ok := raw[n]
-		return ok
-	}
-	for name, nd := range raw {
-		if name == verifMarker {
-			opaque = true
-			continue
-		}
-		if strings.HasPrefix(name, verifWh) {
-			tgt := name[len(verifWh):]
-			if tgt == "" || tgt == "." || tgt == ".." || strings.HasPrefix(tgt, verifWh) || (dir == "" && verifHiddenRoot(tgt)) {
-				// not the name of anything a lower layer can hold, and a name Lookup never resolves:
-				// such a whiteout must not be listed (hidden names never appear, listing and lookup agree)
-				continue
-			}
-			if !real(tgt) {
-				exp[tgt] = verifExp{typ: syscall.S_IFCHR, wh: true}
-			}
-			continue
-		}
-		if !real(name) {
-			continue
-		}
-		exp[name] = verifExp{typ: nd.typ}
-	}
-	return exp, opaque
-}
-
-// ---------------------------------------------------------------------------------------------
-// Building and serving a layer with the real code.
-
-type verifBuilt struct {
-	spec  []verifEnt
-	st    *verifSpecTree
-	root  *node
-	md    metadata.Reader
-	blob  *testBlobState
-	base  uint32
-	om    OverlayOpaqueType
-	dgst  digest.Digest
-	close func()
-}
-
-func verifTarEntries(spec []verifEnt) []tutil.TarEntry {
-	var in []tutil.TarEntry
-	for _, e := range spec {
-		switch e.kind {
-		case 'd':
-			opts := []tutil.DirectoryBuildTarOption{tutil.WithDirMode(e.mode)}
-			if len(e.xattrs) > 0 {
-				opts = append(opts, tutil.WithDirXattrs(e.xattrs))
-			}
-			in = append(in, tutil.Dir(e.path+"/", opts...))
-		case 'f':
-			opts := []tutil.FileBuildTarOption{tutil.WithFileMode(e.mode)}
-			if len(e.xattrs) > 0 {
-				opts = append(opts, tutil.WithFileXattrs(e.xattrs))
-			}
-			in = append(in, tutil.File(e.path, e.data, opts...))
-		case 'l':
-			in = append(in, tutil.Symlink(e.path, e.target))
-		case 'h':
-			in = append(in, tutil.Link(e.path, e.target))
-		case 'c':
-			in = append(in, tutil.Chardev(e.path, e.major, e.minor))
-		case 'b':
-			in = append(in, tutil.Blockdev(e.path, e.major, e.minor))
-		case 'p':
-			in = append(in, tutil.Fifo(e.path))
-		}
-	}
-	return in
-}
-
-var verifOmNames = map[OverlayOpaqueType]string{OverlayOpaqueAll: "all", OverlayOpaqueTrusted: "trusted", OverlayOpaqueUser: "user"}
-
-type verifC07 struct {
-	t        *testing.T
-	out      *verifutil.Out
-	rnd      *verifutil.Rand
-	store    metadata.Store
-	sname    string
-	nkey     int
-	findings bool
-}
-
-func (h *verifC07) build(spec []verifEnt, base uint32, om OverlayOpaqueType, size, fetched int64, prioritized []string) *verifBuilt {
-	var opts []tutil.BuildEStargzOption
-	if len(prioritized) > 0 {
-		opts = append(opts, tutil.WithEStargzOptions(estargz.WithPrioritizedFiles(prioritized)))
-	}
-	sgz, tocDgst, err := tutil.BuildEStargz(verifTarEntries(spec), opts...)
+func (verifC07Mem) Serve(t verifc07.T, sgz *io.SectionReader, tocDgst digest.Digest, base uint32, om string, size, fetched int64) *verifc07.Served {
+	md, err := memorymetadata.NewReader(io.NewSectionReader(sgz, 0, sgz.Size()))
 	if err != nil {
-		h.t.Fatalf("BuildEStargz: %v (spec %v)", err, verifSpecString(spec))
-	}
-	md, err := h.store(io.NewSectionReader(sgz, 0, sgz.Size()))
-	if err != nil {
-		h.t.Fatalf("metadata store %s: %v", h.sname, err)
+		t.Fatalf("memory metadata store: %v", err)
 	}
 	vr, err := reader.NewReader(md, cache.NewMemoryCache(), digest.FromString(""))
 	if err != nil {
-		h.t.Fatalf("reader.NewReader: %v", err)
+		t.Fatalf("reader.NewReader: %v", err)
 	}
 	rr, err := vr.VerifyTOC(tocDgst)
 	if err != nil {
-		h.t.Fatalf("VerifyTOC: %v", err)
+		t.Fatalf("VerifyTOC: %v", err)
 	}
+	opq := map[string]OverlayOpaqueType{"all": OverlayOpaqueAll, "trusted": OverlayOpaqueTrusted, "user": OverlayOpaqueUser}[om]
 	blob := &testBlobState{size, fetched}
-	dgst := digest.FromString(fmt.Sprintf("layer-%d-%d", base, len(spec)))
-	// exactly what (*layer).RootNode does
-	rn, err := newNode(dgst, rr, blob, base, om, passThroughConfig{}, false)
-	if err != nil {
-		h.t.Fatalf("newNode: %v", err)
-	}
-	fusefs.NewNodeFS(rn, &fusefs.Options{}) // initializes the root inode
-	return &verifBuilt{spec: spec, st: verifSpecTreeOf(spec), root: rn.(*node), md: rr.Metadata(), blob: blob,
-		base: base, om: om, dgst: dgst, close: func() { md.Close() }}
-}
-
-func verifSpecString(spec []verifEnt) string {
-	var sb []string
-	for _, e := range spec {
-		s := fmt.Sprintf("%c:%s", e.kind, e.path)
-		if e.kind == 'c' || e.kind == 'b' {
-			s += fmt.Sprintf("(%d/%d)", e.major, e.minor)
-		}
-		if len(e.xattrs) > 0 {
-			var ks []string
-			for k, v := range e.xattrs {
-				ks = append(ks, k+"="+v)
-			}
-			sort.Strings(ks)
-			s += "{" + strings.Join(ks, ",") + "}"
-		}
-		sb = append(sb, s)
-	}
-	return strings.Join(sb, " ")
-}
-
-// ---------------------------------------------------------------------------------------------
-// What the layer serves (collected through the node API), for the stack merge.
-
-type verifServed struct {
-	typ    uint32
-	mode   uint32
-	rdev   uint32
-	ino    uint64
-	layer  int
-	opaque map[string]bool // xattr name -> answered "y"
-	kids   map[string]*verifServed
-}
-
-type verifDirJob struct {
-	n    *node
-	path string
-	sv   *verifServed
-}
-
-type verifEntOut struct {
-	name string
-	mode uint32
-	ino  uint64
-}
-
-func verifEntsString(es []verifEntOut) string {
-	sort.Slice(es, func(i, j int) bool {
-		if es[i].name != es[j].name {
-			return es[i].name < es[j].name
-		}
-		if es[i].mode != es[j].mode {
-			return es[i].mode < es[j].mode
-		}
-		return es[i].ino < es[j].ino
-	})
-	if len(es) == 0 {
-		return "-"
-	}
-	var sb []string
-	for _, e := range es {
-		sb = append(sb, fmt.Sprintf("%s:%d:%d", verifHex(e.name), e.mode, e.ino))
-	}
-	return strings.Join(sb, ",")
-}
-
-func verifXattrsString(x map[string][]byte) string {
-	if len(x) == 0 {
-		return "-"
-	}
-	var ks []string
-	for k := range x {
-		ks = append(ks, k)
-	}
-	sort.Strings(ks)
-	var sb []string
-	for _, k := range ks {
-		sb = append(sb, verifHex(k)+"="+verifHex(string(x[k])))
-	}
-	return strings.Join(sb, ",")
-}
-
-type verifLookupOut struct {
-	ok    bool
-	errno syscall.Errno
-	kind  string
-	stype uint32
-	amode uint32
-	ino   uint64
-	sino  uint64
-	rdev  uint32
-	ga    string
-	gaIno uint64
-	gaMod uint32
-	gaDev uint32
-	in    *fusefs.Inode
-}
-
-func (r *verifLookupOut) line() string {
-	if !r.ok {
-		if r.errno == syscall.ENOENT {
-			return "enoent"
-		}
-		if r.errno == syscall.EIO {
-			return "eio"
-		}
-		return fmt.Sprintf("errno-%d", int(r.errno))
-	}
-	return fmt.Sprintf("%s stype=%d amode=%d ino=%d rdev=%d ga=%s", r.kind, r.stype, r.amode, r.ino, r.rdev, r.ga)
-}
-
-// stable is the part of a lookup answer that must not depend on the call history.
-func (r *verifLookupOut) stable() string {
-	if !r.ok {
-		return "fail"
-	}
-	return fmt.Sprintf("%s/%o/%d/%d", r.kind, r.stype, r.ino, r.rdev)
-}
-
-func verifLookup(n *node, name string) *verifLookupOut {
-	var eo fuse.EntryOut
-	in, errno := n.Lookup(context.Background(), name, &eo)
-	r := &verifLookupOut{errno: errno}
-	if errno != 0 {
-		return r
-	}
-	r.ok = true
-	r.in = in
-	switch in.Operations().(type) {
-	case *node:
-		r.kind = "node"
-	case *whiteout:
-		r.kind = "wh"
-	case *state:
-		r.kind = "state"
-	default:
-		r.kind = fmt.Sprintf("%T", in.Operations())
-	}
-	r.stype = in.StableAttr().Mode
-	r.sino = in.StableAttr().Ino
-	r.amode = eo.Attr.Mode
-	r.ino = eo.Attr.Ino
-	r.rdev = eo.Attr.Rdev
-	r.ga = "none"
-	if ga, ok := in.Operations().(fusefs.NodeGetattrer); ok {
-		var ao fuse.AttrOut
-		if e := ga.Getattr(context.Background(), nil, &ao); e != 0 {
-			r.ga = "eio"
-		} else {
-			r.ga = fmt.Sprintf("%d:%d:%d", ao.Attr.Mode, ao.Attr.Ino, ao.Attr.Rdev)
-			r.gaIno, r.gaMod, r.gaDev = ao.Attr.Ino, ao.Attr.Mode, ao.Attr.Rdev
-		}
-	}
-	return r
-}
-
-func verifReaddir(n *node) ([]verifEntOut, syscall.Errno) {
-	ds, errno := n.Readdir(context.Background())
-	if errno != 0 {
-		return nil, errno
-	}
-	var es []verifEntOut
-	for ds.HasNext() {
-		e, en := ds.Next()
-		if en != 0 {
-			return nil, en
-		}
-		es = append(es, verifEntOut{e.Name, e.Mode, e.Ino})
-	}
-	return es, 0
-}
-
-// layerRun is the per-layer bookkeeping of the oracle.
-type verifLayerRun struct {
-	b       *verifBuilt
-	idx     int
-	inoOf   map[string]uint64 // canonical object -> inode (stability)
-	objOf   map[uint64]string // inode -> canonical object (uniqueness)
-	kxNames []string
-}
-
-// canon names the object behind a served path: hard links share one object, a whiteout is the
-// object of its .wh. entry.
-func (lr *verifLayerRun) canon(dir, name string, wh bool) string {
-	if wh {
-		return "wh:" + verifJoin(dir, verifWh+name)
-	}
-	p := verifJoin(dir, name)
-	if k := lr.b.st.kids[dir]; k != nil {
-		if nd := k[name]; nd != nil && nd.ent != nil && nd.ent.kind == 'h' {
-			return "obj:" + strings.TrimPrefix(nd.ent.target, "/")
-		}
-	}
-	return "obj:" + p
-}
-
-func (h *verifC07) noteIno(lr *verifLayerRun, obj string, ino uint64, where string) {
-	if ino>>32 != uint64(lr.b.base) {
-		h.fail("inode-outside-layer-range", fmt.Sprintf("%s: inode %#x of %s is not in the range of base %d", where, ino, obj, lr.b.base))
-	}
-	low := ino & 0xffffffff
-	if low == 1 || low == 2 {
-		if obj != "state" && obj != "statfile" {
-			h.fail("inode-collides-with-state", fmt.Sprintf("%s: %s has reserved inode %#x", where, obj, ino))
-		}
-	}
-	if old, ok := lr.inoOf[obj]; ok && old != ino {
-		h.fail("inode-unstable", fmt.Sprintf("%s: %s had inode %#x, now %#x", where, obj, old, ino))
-	}
-	lr.inoOf[obj] = ino
-	if o, ok := lr.objOf[ino]; ok && o != obj {
-		h.fail("inode-not-unique", fmt.Sprintf("%s: inode %#x is used by %s and %s", where, ino, o, obj))
-	}
-	lr.objOf[ino] = obj
-}
-
-func (h *verifC07) emitNode(lr *verifLayerRun, key string, n *node, isRoot bool) bool {
-	md := lr.b.md
-	attr, err := md.GetAttr(n.id)
-	if err != nil {
-		h.t.Fatalf("GetAttr(%d): %v", n.id, err)
-	}
-	var cs []string
-	err = md.ForeachChild(n.id, func(name string, id uint32, mode os.FileMode) bool {
-		ca, e := md.GetAttr(id)
-		if e != nil {
-			h.t.Fatalf("GetAttr(%d): %v", id, e)
-		}
-		cs = append(cs, fmt.Sprintf("%s:%d:%d:%d", verifHex(name), id, fileModeToSystemMode(mode), uint32(unix.Mkdev(uint32(ca.DevMajor), uint32(ca.DevMinor)))))
-		return true
-	})
-	if err != nil {
-		cs = nil // not a directory
-	}
-	sort.Strings(cs)
-	csS := "-"
-	if len(cs) > 0 {
-		csS = strings.Join(cs, ",")
-	}
-	r := 0
-	if isRoot {
-		r = 1
-	}
-	h.out.Emit(fmt.Sprintf("node %s %d %d %d %d %s %s", key, r, n.id, fileModeToSystemMode(attr.Mode),
-		uint32(unix.Mkdev(uint32(attr.DevMajor), uint32(attr.DevMinor))), verifXattrsString(attr.Xattrs), csS), "ok")
-	return true
-}
-
-func (h *verifC07) fail(sig, what string) {
-	h.out.Fail(sig, what)
-}
-
-func (h *verifC07) newKey() string {
-	h.nkey++
-	return fmt.Sprintf("k%d", h.nkey)
-}
-
-// exploreDir drives one directory node with a random op sequence, checks the oracle, and returns the
-// served children.
-func (h *verifC07) exploreDir(lr *verifLayerRun, job verifDirJob) []verifDirJob {
-	out, rnd := h.out, h.rnd
-	n, dir := job.n, job.path
-	isRoot := dir == ""
-	key := h.newKey()
-	h.emitNode(lr, key, n, isRoot)
-	exp, expOpaque := lr.b.st.expected(dir)
-	raw := lr.b.st.kids[dir]
-	where := func(op string) string {
-		return fmt.Sprintf("layer#%d[%s] %s dir=%q spec=[%s]", lr.idx, verifOmNames[lr.b.om], op, dir, verifSpecString(lr.b.spec))
-	}
-
-	// names to probe
-	probeSet := map[string]bool{}
-	for nme := range exp {
-		probeSet[nme] = true
-		if rnd.Intn(3) == 0 {
-			probeSet[verifWh+nme] = true
-		}
-	}
-	for nme := range raw {
-		probeSet[nme] = true
-	}
-	for _, s := range []string{estargz.PrefetchLandmark, estargz.NoPrefetchLandmark, estargz.TOCTarName, verifMarker, stateDirName, "nonexistent", ".wh.nonexistent", ".", ".."} {
-		if rnd.Intn(2) == 0 || isRoot {
-			probeSet[s] = true
-		}
-	}
-	if raw[verifWh] != nil {
-		probeSet[""] = true // never sent by the kernel; compared with the model only
-	}
-	var probes []string
-	for p := range probeSet {
-		probes = append(probes, p)
-	}
-	sort.Strings(probes)
-	for i := len(probes) - 1; i > 0; i-- {
-		j := rnd.Intn(i + 1)
-		probes[i], probes[j] = probes[j], probes[i]
-	}
-
-	var lastList []verifEntOut
-	haveList := false
-	lastLookup := map[string]*verifLookupOut{}
-	adopted := map[string]bool{}
-
-	// doReaddir lists through node nn (the directory's primary node, or a fresh un-memoised node of the
-	// same directory: ForeachChild's order differs from call to call).
-	doReaddir := func(nn *node, key string, primary bool) {
-		es, errno := verifReaddir(nn)
-		out.Count("readdir")
-		if !primary {
-			out.Count("readdir-fresh-node")
-		}
-		if errno != 0 {
-			out.Emit("readdir "+key, "eio")
-			h.fail("readdir-failed", where("Readdir")+fmt.Sprintf(": errno %d", int(errno)))
-			return
-		}
-		out.Emit("readdir "+key, "ok "+verifEntsString(append([]verifEntOut(nil), es...)))
-		if haveList && verifEntsString(append([]verifEntOut(nil), lastList...)) != verifEntsString(append([]verifEntOut(nil), es...)) {
-			h.fail("listing-unstable", where("Readdir")+": two calls (same or fresh node of this directory) returned different listings")
-		}
-		if primary {
-			lastList, haveList = es, true
-		}
-		// ---- oracle: the listing is the overlayfs translation of the source directory ----
-		seen := map[string]verifEntOut{}
-		ndot, ndotdot := 0, 0
-		for _, e := range es {
-			typ := e.mode & verifIFMT
-			if e.name == "." && typ == syscall.S_IFDIR && e.ino == 0 {
-				ndot++
-				continue
-			}
-			if e.name == ".." && typ == syscall.S_IFDIR && e.ino == 0 {
-				ndotdot++
-				continue
-			}
-			if e.name == "" || e.name == "." || e.name == ".." || strings.Contains(e.name, "/") {
-				h.fail("whiteout-with-empty-or-dot-target-listed", where("Readdir")+fmt.Sprintf(": invalid entry name %q (mode %o) listed", e.name, e.mode))
-				continue
-			}
-			if _, dup := seen[e.name]; dup {
-				h.fail("listing-duplicate-name", where("Readdir")+fmt.Sprintf(": %q listed twice", e.name))
-			}
-			seen[e.name] = e
-			switch {
-			case e.name == verifMarker && raw[verifWh+e.name] == nil:
-				h.fail("opaque-marker-listed", where("Readdir")+": the opaque marker is listed")
-			case strings.HasPrefix(e.name, verifWh) && verifWh+e.name == verifMarker:
-				h.fail("opaque-marker-listed-as-whiteout", where("Readdir")+fmt.Sprintf(": the opaque marker is translated like a whiteout, %q is listed", e.name))
-			case strings.HasPrefix(e.name, verifWh):
-				if tgt := verifWh + e.name; raw[tgt] != nil {
-					h.fail("whiteout-of-dotwh-name-listed-not-lookupable", where("Readdir")+fmt.Sprintf(": %q is listed (whiteout of a name that begins with .wh.)", e.name))
-				} else {
-					h.fail("dotwh-name-listed", where("Readdir")+fmt.Sprintf(": whiteout file %q is listed", e.name))
-				}
-			case isRoot && verifIsLandmark(e.name):
-				if raw[verifWh+e.name] != nil {
-					h.fail("whiteout-of-landmark-listed-in-root-not-lookupable", where("Readdir")+fmt.Sprintf(": %q is listed in the root (whiteout of a landmark name)", e.name))
-				} else {
-					h.fail("landmark-listed-in-root", where("Readdir")+fmt.Sprintf(": %q is listed in the root", e.name))
-				}
-			case isRoot && e.name == estargz.TOCTarName:
-				h.fail("toc-listed-in-root", where("Readdir")+": the TOC entry is listed in the root")
-			case isRoot && e.name == stateDirName:
-				h.fail("state-dir-listed", where("Readdir")+": the state directory is listed")
-			}
-			x, ok := exp[e.name]
-			if !ok {
-				if raw[e.name] != nil || raw[verifWh+e.name] != nil {
-					continue // reported above (hidden name) or below (shadowed whiteout)
-				}
-				h.fail("listing-extra-name", where("Readdir")+fmt.Sprintf(": %q is listed but the layer has no such entry", e.name))
-				continue
-			}
-			if x.wh {
-				if e.mode != syscall.S_IFCHR {
-					h.fail("whiteout-not-chr00", where("Readdir")+fmt.Sprintf(": whiteout %q listed with mode %o", e.name, e.mode))
-				}
-			} else if typ != x.typ {
-				if typ == syscall.S_IFCHR && raw[verifWh+e.name] != nil {
-					h.fail("whiteout-shadows-real-entry", where("Readdir")+fmt.Sprintf(": %q exists as a real entry (type %o) but is listed as a whiteout", e.name, x.typ))
-				} else {
-					h.fail("listing-type-mismatch", where("Readdir")+fmt.Sprintf(": %q listed with type %o, the layer says %o", e.name, typ, x.typ))
-				}
-			}
-			h.noteIno(lr, lr.canon(dir, e.name, x.wh), e.ino, where("Readdir"))
-		}
-		if ndot != 1 || ndotdot != 1 {
-			h.fail("dot-entries-missing", where("Readdir")+fmt.Sprintf(": %d '.' and %d '..' entries", ndot, ndotdot))
-		}
-		for nme, x := range exp {
-			if _, ok := seen[nme]; !ok {
-				if x.wh {
-					h.fail("whiteout-not-listed", where("Readdir")+fmt.Sprintf(": whiteout of %q is not listed as a character device", nme))
-				} else {
-					h.fail("listing-missing-name", where("Readdir")+fmt.Sprintf(": %q is not listed", nme))
-				}
-			}
-		}
-	}
-
-	doLookup := func(name string) {
-		adopt := 0
-		r := verifLookup(n, name)
-		out.Count("lookup")
-		if r.ok && name != "" && name != "." && name != ".." && r.kind != "state" && rnd.Intn(3) == 0 {
-			// what go-fuse's bridge does after a successful Lookup (rawBridge.addNewChild)
-			if n.AddChild(name, r.in, true) {
-				adopt = 1
-				adopted[name] = true
-				out.Count("adopt")
-			}
-		}
-		memo := "fresh"
-		if haveList {
-			memo = "memoised"
-		}
-		if adopted[name] && adopt == 0 {
-			memo = "child-cached"
-		}
-		out.Count("lookup-" + memo)
-		out.Emit(fmt.Sprintf("lookup %s %s %d", key, verifHex(name), adopt), r.line())
-		w := where(fmt.Sprintf("Lookup(%q) [%s]", name, memo))
-		if !r.ok && r.errno != syscall.ENOENT {
-			h.fail("lookup-errno", w+fmt.Sprintf(": errno %d", int(r.errno)))
-		}
-		if prev, ok := lastLookup[name]; ok && name != "" && prev.stable() != r.stable() {
-			h.fail("lookup-unstable", w+fmt.Sprintf(": answered %s, earlier %s", r.stable(), prev.stable()))
-		}
-		lastLookup[name] = r
-		if name == "." || name == ".." || name == "" {
-			return
-		}
-		if isRoot && name == stateDirName {
-			if !r.ok || r.kind != "state" || r.stype != syscall.S_IFDIR || r.gaMod != syscall.S_IFDIR|0500 {
-				h.fail("state-dir-not-served", w+": "+r.line())
-			} else {
-				h.noteIno(lr, "state", r.ino, w)
-			}
-			return
-		}
-		// ---- oracle: hidden names are not reachable ----
-		if r.ok && (strings.HasPrefix(name, verifWh) || (isRoot && verifHiddenRoot(name))) {
-			h.fail("hidden-name-lookupable", w+": "+r.line())
-		}
-		// ---- oracle: listing and lookup agree (against the source tar and against the real listing) ----
-		x, want := exp[name]
-		if want != r.ok {
-			if want {
-				h.fail("listed-not-lookupable", w+": the layer's translation has this name, Lookup failed")
-			} else if !strings.HasPrefix(name, verifWh) && !(isRoot && verifHiddenRoot(name)) {
-				h.fail("lookupable-not-listed", w+": "+r.line()+" but the layer's translation has no such name")
-			}
-		}
-		if haveList {
-			var le *verifEntOut
-			for i := range lastList {
-				if lastList[i].name == name {
-					le = &lastList[i]
-				}
-			}
-			if (le != nil) != r.ok {
-				sig := "listing-lookup-disagree"
-				if le != nil && strings.HasPrefix(name, verifWh) {
-					sig = "whiteout-of-dotwh-name-listed-not-lookupable"
-				} else if le != nil && isRoot && verifIsLandmark(name) {
-					sig = "whiteout-of-landmark-listed-in-root-not-lookupable"
-				}
-				h.fail(sig, w+fmt.Sprintf(": listed=%v lookup-ok=%v", le != nil, r.ok))
-			} else if le != nil {
-				if le.ino != r.ino {
-					h.fail("lookup-listing-inode-mismatch", w+fmt.Sprintf(": dirent inode %#x, lookup inode %#x", le.ino, r.ino))
-				}
-				if le.mode&verifIFMT != r.stype&verifIFMT {
-					h.fail("lookup-listing-type-mismatch", w+fmt.Sprintf(": dirent type %o, lookup type %o", le.mode&verifIFMT, r.stype&verifIFMT))
-				}
-			}
-		}
-		if !r.ok {
-			return
-		}
-		if r.ino != r.sino || (r.ga != "none" && r.gaIno != r.ino) {
-			h.fail("inode-unstable", w+fmt.Sprintf(": attr inode %#x, stable inode %#x, getattr inode %#x", r.ino, r.sino, r.gaIno))
-		}
-		if want {
-			h.noteIno(lr, lr.canon(dir, name, x.wh), r.ino, w)
-			// ---- oracle: whiteout <-> character device 0/0 ----
-			isChr00 := r.stype&verifIFMT == syscall.S_IFCHR && r.rdev == 0 && r.gaMod&verifIFMT == syscall.S_IFCHR && r.gaDev == 0
-			if x.wh && (!isChr00 || r.kind != "wh") {
-				h.fail("whiteout-not-chr00", w+": "+r.line())
-			}
-			if !x.wh && r.stype&verifIFMT != x.typ {
-				if r.kind == "wh" {
-					h.fail("whiteout-shadows-real-entry", w+": "+r.line())
-				} else {
-					h.fail("lookup-type-mismatch", w+fmt.Sprintf(": type %o, the layer says %o", r.stype&verifIFMT, x.typ))
-				}
-			}
-		}
-	}
-
-	xattrsOfDir := map[string]string{}
-	if p, nme := verifParent(dir); dir != "" {
-		if nd := lr.b.st.kids[p][nme]; nd != nil && nd.ent != nil {
-			xattrsOfDir = nd.ent.xattrs
-		}
-	}
-	opq := map[string]bool{}
-	doGetxattr := func(name string, dl int) {
-		dest := make([]byte, dl)
-		nb, errno := n.Getxattr(context.Background(), name, dest)
-		out.Count("getxattr")
-		var res string
-		switch errno {
-		case 0:
-			res = fmt.Sprintf("ok %d %s", nb, verifHex(string(dest[:nb])))
-		case syscall.ERANGE:
-			res = fmt.Sprintf("erange %d", nb)
-		case syscall.ENODATA:
-			res = "enodata"
-		default:
-			res = fmt.Sprintf("errno-%d", int(errno))
-		}
-		out.Emit(fmt.Sprintf("getxattr %s %s %d", key, verifHex(name), dl), res)
-		// ---- oracle: opaque xattr per mode ----
-		w := where(fmt.Sprintf("Getxattr(%q,%d)", name, dl))
-		inMode := false
-		for _, o := range opaqueXattrs[lr.b.om] {
-			if o == name {
-				inMode = true
-			}
-		}
-		isOvl := name == "trusted.overlay.opaque" || name == "user.overlay.opaque"
-		if _, own := xattrsOfDir[name]; isOvl && !own {
-			answered := errno == 0 || errno == syscall.ERANGE
-			switch {
-			case inMode && expOpaque && !answered:
-				h.fail("opaque-xattr-missing", w+": "+res)
-			case inMode && expOpaque && errno == 0 && string(dest[:nb]) != "y":
-				h.fail("opaque-xattr-missing", w+": value "+res)
-			case inMode && expOpaque && errno == syscall.ERANGE && (dl >= 1 || nb != 1):
-				h.fail("opaque-xattr-missing", w+": "+res)
-			case !expOpaque && answered:
-				h.fail("opaque-xattr-on-non-opaque-dir", w+": "+res)
-			case !inMode && answered:
-				h.fail("opaque-xattr-outside-configured-mode", w+": "+res)
-			}
-			if errno == 0 && string(dest[:nb]) == "y" {
-				opq[name] = true
-			}
-		}
-	}
-	doListxattr := func(dl int) {
-		dest := make([]byte, dl)
-		nb, errno := n.Listxattr(context.Background(), dest)
-		out.Count("listxattr")
-		var res string
-		var names []string
-		switch errno {
-		case 0:
-			if nb > 0 {
-				names = strings.Split(strings.TrimSuffix(string(dest[:nb]), "\x00"), "\x00")
-			}
-			sort.Strings(names)
-			hs := make([]string, len(names))
-			for i, s := range names {
-				hs[i] = verifHex(s)
-			}
-			ns := "-"
-			if len(hs) > 0 {
-				ns = strings.Join(hs, ",")
-			}
-			res = fmt.Sprintf("ok %d %s", nb, ns)
-		case syscall.ERANGE:
-			res = fmt.Sprintf("erange %d", nb)
-		default:
-			res = fmt.Sprintf("errno-%d", int(errno))
-		}
-		out.Emit(fmt.Sprintf("listxattr %s %d", key, dl), res)
-		if errno != 0 {
-			return
-		}
-		w := where("Listxattr")
-		for _, o := range []string{"trusted.overlay.opaque", "user.overlay.opaque"} {
-			if _, own := xattrsOfDir[o]; own {
-				continue
-			}
-			inMode := false
-			for _, m := range opaqueXattrs[lr.b.om] {
-				if m == o {
-					inMode = true
-				}
-			}
-			cnt := 0
-			for _, s := range names {
-				if s == o {
-					cnt++
-				}
-			}
-			if want := expOpaque && inMode; want && cnt != 1 || !want && cnt != 0 {
-				sig := "opaque-xattr-missing"
-				if !expOpaque {
-					sig = "opaque-xattr-on-non-opaque-dir"
-				} else if !inMode {
-					sig = "opaque-xattr-outside-configured-mode"
-				}
-				h.fail(sig, w+fmt.Sprintf(": %q listed %d times (opaque=%v, mode=%s)", o, cnt, expOpaque, verifOmNames[lr.b.om]))
-			}
-		}
-		for k := range xattrsOfDir {
-			found := false
-			for _, s := range names {
-				if s == k {
-					found = true
-				}
-			}
-			if !found {
-				h.fail("xattr-lost", w+fmt.Sprintf(": xattr %q of the entry is not listed", k))
-			}
-		}
-	}
-	doGetattr := func() {
-		var ao fuse.AttrOut
-		errno := n.Getattr(context.Background(), nil, &ao)
-		out.Count("getattr")
-		if errno != 0 {
-			out.Emit("getattr "+key, "eio")
-			h.fail("getattr-failed", where("Getattr"))
-			return
-		}
-		out.Emit("getattr "+key, fmt.Sprintf("ok %d %d %d", ao.Attr.Mode, ao.Attr.Ino, ao.Attr.Rdev))
-		obj := "obj:" + dir
-		if isRoot {
-			obj = "root"
-		}
-		h.noteIno(lr, obj, ao.Attr.Ino, where("Getattr"))
-		if ao.Attr.Mode&verifIFMT != syscall.S_IFDIR {
-			h.fail("dir-type-mismatch", where("Getattr")+fmt.Sprintf(": mode %o", ao.Attr.Mode))
-		}
-	}
-
-	// the op schedule: lookups before and after the listing is memoised, repeated lookups
-	type op struct {
-		k    int
-		name string
-		dl   int
-	}
-	var ops []op
-	nBefore := 0
-	switch rnd.Intn(3) {
-	case 0:
-		nBefore = 0
-	case 1:
-		nBefore = rnd.Intn(len(probes) + 1)
-	default:
-		nBefore = len(probes)
-	}
-	for i, p := range probes {
-		if i == nBefore {
-			ops = append(ops, op{k: 0})
-		}
-		ops = append(ops, op{k: 1, name: p})
-		if rnd.Intn(4) == 0 {
-			ops = append(ops, op{k: 1, name: probes[rnd.Intn(i+1)]})
-		}
-	}
-	ops = append(ops, op{k: 0})
-	for _, p := range probes { // every name once more after memoisation / adoption
-		if rnd.Intn(2) == 0 {
-			ops = append(ops, op{k: 1, name: p})
-		}
-	}
-	xn := []string{"trusted.overlay.opaque", "user.overlay.opaque", "user.foo", "security.capability", "trusted.overlay.redirect"}
-	for k := range xattrsOfDir {
-		xn = append(xn, k)
-	}
-	sort.Strings(xn)
-	for _, x := range xn {
-		for _, dl := range []int{64, 0, 1} {
-			if dl == 64 || rnd.Intn(2) == 0 {
-				ops = append(ops, op{k: 2, name: x, dl: dl})
-			}
-		}
-	}
-	ops = append(ops, op{k: 3, dl: 4096}, op{k: 4})
-	if rnd.Intn(2) == 0 {
-		ops = append(ops, op{k: 3, dl: rnd.Intn(40)})
-	}
-	// xattr / getattr ops are interleaved at random positions
-	nl := 0
-	for _, o := range ops {
-		if o.k <= 1 {
-			nl++
-		}
-	}
-	var sched []op
-	var tail []op
-	for _, o := range ops {
-		if o.k <= 1 {
-			sched = append(sched, o)
-		} else {
-			tail = append(tail, o)
-		}
-	}
-	for _, o := range tail {
-		i := rnd.Intn(len(sched) + 1)
-		sched = append(sched[:i], append([]op{o}, sched[i:]...)...)
-	}
-	for _, o := range sched {
-		switch o.k {
-		case 0:
-			doReaddir(n, key, true)
-		case 1:
-			doLookup(o.name)
-		case 2:
-			doGetxattr(o.name, o.dl)
-		case 3:
-			doListxattr(o.dl)
-		case 4:
-			doGetattr()
-		}
-	}
-	if len(raw) > 12 {
-		// big directory: several fresh, un-memoised nodes of the same directory
-		out.Count("big-dir")
-		for i := 0; i < 6; i++ {
-			fresh := &node{id: n.id, fs: n.fs, attr: n.attr}
-			fk := h.newKey()
-			h.emitNode(lr, fk, fresh, isRoot)
-			doReaddir(fresh, fk, false)
-		}
-	}
-	for _, kn := range lr.kxNames {
-		if _, seen := opq[kn]; !seen {
-			doGetxattr(kn, 8)
-		}
-	}
-	job.sv.opaque = opq
-
-	// served children (for the stack merge) and the directories to descend into
-	var next []verifDirJob
-	if !haveList {
-		return nil
-	}
-	names := []string{}
-	for _, e := range lastList {
-		if e.name == "." || e.name == ".." || e.name == "" {
-			continue
-		}
-		names = append(names, e.name)
-	}
-	sort.Strings(names)
-	for _, nme := range names {
-		r := lastLookup[nme]
-		if r == nil {
-			doLookup(nme)
-			r = lastLookup[nme]
-		}
-		if r == nil || !r.ok {
-			continue // reported by the agreement oracle
-		}
-		c := &verifServed{typ: r.stype & verifIFMT, mode: r.amode, rdev: r.rdev, ino: r.ino, layer: lr.idx, kids: map[string]*verifServed{}}
-		job.sv.kids[nme] = c
-		if cn, ok := r.in.Operations().(*node); ok && c.typ == syscall.S_IFDIR {
-			next = append(next, verifDirJob{n: cn, path: verifJoin(dir, nme), sv: c})
-		} else if ok && rnd.Intn(4) == 0 {
-			// xattr calls on a non-directory node
-			fk := h.newKey()
-			h.emitNode(lr, fk, cn, false)
-			for _, x := range []string{"trusted.overlay.opaque", "user.overlay.opaque", "user.foo"} {
-				dest := make([]byte, 16)
-				nb, errno := cn.Getxattr(context.Background(), x, dest)
-				res := "enodata"
-				if errno == 0 {
-					res = fmt.Sprintf("ok %d %s", nb, verifHex(string(dest[:nb])))
-				} else if errno != syscall.ENODATA {
-					res = fmt.Sprintf("errno-%d", int(errno))
-				}
-				out.Emit(fmt.Sprintf("getxattr %s %s 16", fk, verifHex(x)), res)
-				own := false
-				if nd := raw[nme]; nd != nil && nd.ent != nil {
-					_, own = nd.ent.xattrs[x]
-				}
-				if errno == 0 && !own && x != "user.foo" {
-					h.fail("opaque-xattr-on-non-opaque-dir", where("Getxattr on non-directory "+nme)+": "+res)
-				}
-			}
-		}
-	}
-	return next
-}
-
-// exploreLayer walks every directory of the layer through the node API.
-func (h *verifC07) exploreLayer(b *verifBuilt, idx int, kxNames []string) *verifServed {
-	lr := &verifLayerRun{b: b, idx: idx, inoOf: map[string]uint64{}, objOf: map[uint64]string{}, kxNames: kxNames}
-	h.out.Emit(fmt.Sprintf("layer %d %s %s %d %d", b.base, verifOmNames[b.om], verifHex(b.dgst.String()), b.blob.size, b.blob.fetchedSize), "ok")
-	rootSv := &verifServed{typ: syscall.S_IFDIR, layer: idx, kids: map[string]*verifServed{}}
-	queue := []verifDirJob{{n: b.root, path: "", sv: rootSv}}
-	for len(queue) > 0 {
-		// random order over the pending directories
-		i := h.rnd.Intn(len(queue))
-		job := queue[i]
-		queue = append(queue[:i], queue[i+1:]...)
-		queue = append(queue, h.exploreDir(lr, job)...)
-	}
-	h.exploreState(lr)
-	return rootSv
-}
-
-// exploreState checks the hidden state directory and the stat file.
-func (h *verifC07) exploreState(lr *verifLayerRun) {
-	out, rnd, b := h.out, h.rnd, lr.b
-	var eo fuse.EntryOut
-	sti, errno := b.root.Lookup(context.Background(), stateDirName, &eo)
-	if errno != 0 {
-		h.fail("state-dir-not-served", fmt.Sprintf("Lookup(%q) errno %d", stateDirName, int(errno)))
-		return
-	}
-	st, ok := sti.Operations().(*state)
-	if !ok {
-		h.fail("state-dir-not-served", "not a state node")
-		return
-	}
-	wantName := b.dgst.String() + ".json"
-	nsteps := 2 + rnd.Intn(4)
-	for i := 0; i < nsteps; i++ {
-		switch rnd.Pick(3, 3, 3, 1, 1) {
-		case 0:
-			ds, errno := st.Readdir(context.Background())
-			if errno != 0 {
-				out.Emit("st.readdir", "eio")
-				h.fail("statfile-not-listed", "state.Readdir failed")
-				continue
-			}
-			var es []verifEntOut
-			for ds.HasNext() {
-				e, _ := ds.Next()
-				es = append(es, verifEntOut{e.Name, e.Mode, e.Ino})
-			}
-			out.Emit("st.readdir", "ok "+verifEntsString(append([]verifEntOut(nil), es...)))
-			if len(es) != 1 || es[0].name != wantName || es[0].mode != syscall.S_IFREG|0400 {
-				h.fail("statfile-not-listed", fmt.Sprintf("state dir lists %v, want only %q", es, wantName))
-			} else {
-				h.noteIno(lr, "statfile", es[0].ino, "state.Readdir")
-			}
-		case 1:
-			name := wantName
-			if rnd.Intn(3) == 0 {
-				name = []string{"x.json", b.dgst.String(), "", ".", wantName + "x"}[rnd.Intn(5)]
-			}
-			var eo2 fuse.EntryOut
-			in, errno := st.Lookup(context.Background(), name, &eo2)
-			res := ""
-			switch errno {
-			case 0:
-				res = fmt.Sprintf("ok %d %d", eo2.Attr.Mode, eo2.Attr.Ino)
-			case syscall.ENOENT:
-				res = "enoent"
-			default:
-				res = "eio"
-			}
-			out.Emit("st.lookup "+verifHex(name), res)
-			if b.blob.size > 0 {
-				if (name == wantName) != (errno == 0) {
-					h.fail("statfile-listing-lookup-disagree", fmt.Sprintf("state.Lookup(%q): %s", name, res))
-				}
-				if errno == 0 {
-					h.noteIno(lr, "statfile", eo2.Attr.Ino, "state.Lookup")
-					if _, ok := in.Operations().(*statFile); !ok || eo2.Attr.Mode != syscall.S_IFREG|0400 {
-						h.fail("statfile-not-listed", "state.Lookup: "+res)
-					}
-				}
-			}
-		case 2:
-			buf := make([]byte, 8192)
-			rres, errno := st.statFile.Read(context.Background(), nil, buf, 0)
-			if errno != 0 {
-				out.Emit("st.read", "eio")
-				if b.blob.size > 0 {
-					h.fail("statfile-unreadable", fmt.Sprintf("statFile.Read errno %d", int(errno)))
-				}
-				continue
-			}
-			data, _ := rres.Bytes(nil)
-			var m map[string]json.RawMessage
-			dec := json.NewDecoder(strings.NewReader(string(data)))
-			if err := dec.Decode(&m); err != nil {
-				out.Emit("st.read", "invalid-json")
-				h.fail("statfile-invalid-json", fmt.Sprintf("%q: %v", data, err))
-				continue
-			}
-			var keys []string
-			for k := range m {
-				keys = append(keys, k)
-			}
-			sort.Strings(keys)
-			get := func(k string, str bool) string {
-				v, ok := m[k]
-				if !ok {
-					return "missing"
-				}
-				if str {
-					var s string
-					if json.Unmarshal(v, &s) != nil {
-						return "notstring"
-					}
-					return verifHex(s)
-				}
-				return string(v)
-			}
-			out.Emit("st.read", fmt.Sprintf("keys=%s digest=%s size=%s fetchedSize=%s error=%s", strings.Join(keys, ","),
-				get("digest", true), get("size", false), get("fetchedSize", false), get("error", true)))
-			// ---- oracle: valid JSON reporting digest, size and fetched size ----
-			var sj struct {
-				Digest      *string `json:"digest"`
-				Size        *int64  `json:"size"`
-				FetchedSize *int64  `json:"fetchedSize"`
-			}
-			if err := json.Unmarshal(data, &sj); err != nil || sj.Digest == nil || sj.Size == nil || sj.FetchedSize == nil {
-				h.fail("statfile-field-missing", fmt.Sprintf("%q", data))
-			} else if *sj.Digest != b.dgst.String() || *sj.Size != b.blob.size || *sj.FetchedSize != b.blob.fetchedSize {
-				h.fail("statfile-wrong-values", fmt.Sprintf("%q, want digest=%s size=%d fetchedSize=%d", data, b.dgst, b.blob.size, b.blob.fetchedSize))
-			}
-		case 3:
-			nf := int64(rnd.Intn(int(b.blob.size) + 2))
-			b.blob.fetchedSize = nf
-			out.Emit(fmt.Sprintf("st.fetched %d", nf), "ok")
-		case 4:
-			msg := fmt.Sprintf("verif-%d \"quoted\" \\ <é>", rnd.Intn(1000))
-			b.root.fs.s.report(errors.New(msg))
-			out.Emit("st.report "+verifHex(msg), "ok")
-		}
-	}
-}
-
-// ---------------------------------------------------------------------------------------------
-// Generators.
-
-type verifRef struct {
-	typ   uint32
-	layer int
-}
-
-var verifNames = []string{"a", "b", "c", "d", "e", "f", "g", ".hid", "wh.x", "x.wh.y", ".whx", "café", "A", "z9", ".w"}
-
-func (h *verifC07) genXattrs() map[string]string {
-	if h.rnd.Intn(4) != 0 {
-		return nil
-	}
-	x := map[string]string{}
-	for i, n := 0, 1+h.rnd.Intn(2); i < n; i++ {
-		k := []string{"user.foo", "user.bar", "security.capability", "trusted.x", "user.overlay.origin"}[h.rnd.Intn(5)]
-		x[k] = []string{"", "v", "value-1", "y"}[h.rnd.Intn(4)]
-	}
-	return x
-}
-
-type verifGenOpts struct {
-	stack    bool // explicit parent directories only, domain of the composition oracle
-	big      bool // always add a big directory
-	findings bool // always add a whiteout of a .wh. name / of a landmark name in the root / of "", ".", ".."
-}
-
-// genLayer generates one source tar.  `lower` is the root filesystem below (nil for a single layer).
-func (h *verifC07) genLayer(lower map[string]verifRef, o verifGenOpts) []verifEnt {
-	rnd := h.rnd
-	var spec []verifEnt
-	typ := map[string]byte{} // path -> kind in this layer (explicit or 'D' implicit dir)
-	dirs := []string{""}
-	lowerDirs := []string{}
-	var lowerPaths []string
-	for p, r := range lower {
-		lowerPaths = append(lowerPaths, p)
-		if r.typ == syscall.S_IFDIR {
-			lowerDirs = append(lowerDirs, p)
-		}
-	}
-	sort.Strings(lowerPaths)
-	sort.Strings(lowerDirs)
-	hasWhFor := func(p string) bool {
-		d, n := verifParent(p)
-		_, ok := typ[verifJoin(d, verifWh+n)]
-		return ok
-	}
-	var ensureDir func(p string) bool
-	ensureDir = func(p string) bool {
-		if p == "" {
-			return true
-		}
-		if k, ok := typ[p]; ok {
-			return k == 'd' || k == 'D'
-		}
-		if hasWhFor(p) {
-			return false // excluded domain: whiteout and directory of the same name
-		}
-		par, _ := verifParent(p)
-		if !ensureDir(par) {
-			return false
-		}
-		if o.stack || rnd.Intn(4) != 0 {
-			spec = append(spec, verifEnt{path: p, kind: 'd', mode: []os.FileMode{0755, 0700, 0755 | os.ModeSetgid, 0777 | os.ModeSticky}[rnd.Intn(4)], xattrs: h.genXattrs()})
-			typ[p] = 'd'
-		} else {
-			typ[p] = 'D'
-		}
-		dirs = append(dirs, p)
-		return true
-	}
-	pickDir := func() string {
-		if len(lowerDirs) > 0 && rnd.Intn(3) == 0 {
-			return lowerDirs[rnd.Intn(len(lowerDirs))]
-		}
-		return dirs[rnd.Intn(len(dirs))]
-	}
-	pickName := func(dir string) string {
-		if len(lowerPaths) > 0 && rnd.Intn(3) == 0 { // hit a name of the lower filesystem
-			var c []string
-			for _, p := range lowerPaths {
-				if d, n := verifParent(p); d == dir {
-					c = append(c, n)
-				}
-			}
-			if len(c) > 0 {
-				return c[rnd.Intn(len(c))]
-			}
-		}
-		return verifNames[rnd.Intn(len(verifNames))]
-	}
-	add := func(e verifEnt) bool {
-		if _, dup := typ[e.path]; dup {
-			return false
-		}
-		par, name := verifParent(e.path)
-		if !ensureDir(par) {
-			return false
-		}
-		if _, dup := typ[e.path]; dup {
-			return false
-		}
-		if e.kind == 'd' && hasWhFor(e.path) {
-			return false
-		}
-		if strings.HasPrefix(name, verifWh) && name != verifMarker {
-			if k := typ[verifJoin(par, name[len(verifWh):])]; k == 'd' || k == 'D' {
-				return false
-			}
-		}
-		spec = append(spec, e)
-		typ[e.path] = e.kind
-		if e.kind == 'd' {
-			dirs = append(dirs, e.path)
-		}
-		return true
-	}
-	nops := 2 + rnd.Intn(12)
-	var regs []string
-	for i := 0; i < nops; i++ {
-		dir := pickDir()
-		switch rnd.Pick(6, 4, 4, 3, 2, 2, 2, 1, 1, 1, 1) {
-		case 0: // regular file (new or replacing)
-			p := verifJoin(dir, pickName(dir))
-			if add(verifEnt{path: p, kind: 'f', data: fmt.Sprintf("data-%d", rnd.Intn(100)), mode: []os.FileMode{0644, 0600, 0755, 0644 | os.ModeSetuid}[rnd.Intn(4)], xattrs: h.genXattrs()}) {
-				regs = append(regs, p)
-			}
-		case 1: // directory
-			add(verifEnt{path: verifJoin(dir, pickName(dir)), kind: 'd', mode: 0755, xattrs: h.genXattrs()})
-		case 2: // whiteout of a lower name or of nothing
-			add(verifEnt{path: verifJoin(dir, verifWh+pickName(dir)), kind: 'f', mode: 0644})
-		case 3: // opaque directory
-			add(verifEnt{path: verifJoin(dir, verifMarker), kind: 'f', mode: 0644})
-		case 4: // whiteout and a real non-directory of the same name
-			nme := pickName(dir)
-			if add(verifEnt{path: verifJoin(dir, nme), kind: 'f', data: "both", mode: 0644}) {
-				add(verifEnt{path: verifJoin(dir, verifWh+nme), kind: 'f', mode: 0644})
-			}
-		case 5: // landmarks and the TOC name, in the root and in subdirectories
-			nme := []string{estargz.PrefetchLandmark, estargz.NoPrefetchLandmark, estargz.TOCTarName}[rnd.Intn(3)]
-			add(verifEnt{path: verifJoin(dir, nme), kind: 'f', data: "lm", mode: 0644})
-		case 6:
-			add(verifEnt{path: verifJoin(dir, pickName(dir)), kind: 'l', target: "../t"})
-		case 7:
-			mj, mn := int64(1+rnd.Intn(5)), int64(rnd.Intn(9))
-			add(verifEnt{path: verifJoin(dir, pickName(dir)), kind: 'c', major: mj, minor: mn})
-		case 8:
-			add(verifEnt{path: verifJoin(dir, pickName(dir)), kind: 'b', major: int64(rnd.Intn(3)), minor: int64(rnd.Intn(3))})
-		case 9:
-			add(verifEnt{path: verifJoin(dir, pickName(dir)), kind: 'p'})
-		case 10:
-			if len(regs) > 0 {
-				add(verifEnt{path: verifJoin(dir, pickName(dir)), kind: 'h', target: regs[rnd.Intn(len(regs))]})
-			}
-		}
-	}
-	if o.big || rnd.Intn(4) == 0 {
-		// a big directory (13-80 entries): names that have both a real entry and a whiteout, lone
-		// whiteouts, plain entries (Go's sort.Slice is an insertion sort only up to 12 elements)
-		dir := pickDir()
-		if rnd.Intn(3) != 0 {
-			dir = verifJoin(dir, []string{"big", "B", "m"}[rnd.Intn(3)])
-			add(verifEnt{path: dir, kind: 'd', mode: 0755, xattrs: h.genXattrs()})
-		}
-		if k, ok := typ[dir]; dir == "" || (ok && (k == 'd' || k == 'D')) {
-			total := 13 + rnd.Intn(68)
-			npairs := 3 + rnd.Intn(12)
-			for i := 0; i < total; i++ {
-				nme := fmt.Sprintf("%c%02d", "pqrs"[rnd.Intn(4)], i)
-				switch {
-				case i < npairs: // real X and .wh.X
-					kind := byte('f')
-					if rnd.Intn(4) == 0 {
-						kind = 'l'
-					}
-					if add(verifEnt{path: verifJoin(dir, nme), kind: kind, data: "pair", target: "t", mode: 0644}) {
-						add(verifEnt{path: verifJoin(dir, verifWh+nme), kind: 'f', mode: 0644})
-						i++
-					}
-				case i%7 == 0:
-					add(verifEnt{path: verifJoin(dir, verifWh+nme), kind: 'f', mode: 0644})
-				default:
-					add(verifEnt{path: verifJoin(dir, nme), kind: 'f', data: "x", mode: 0644})
-				}
-			}
-		}
-	}
-	if o.findings || rnd.Intn(8) == 0 { // whiteouts whose target can never be looked up (repaired by 545b9cc)
-		dir := pickDir()
-		switch rnd.Intn(4) {
-		case 0:
-			add(verifEnt{path: verifJoin(dir, verifWh+verifWh+pickName(dir)), kind: 'f', mode: 0644})
-		case 1:
-			add(verifEnt{path: verifJoin(dir, verifWh+verifMarker), kind: 'f', mode: 0644})
-		case 2:
-			add(verifEnt{path: verifWh + []string{estargz.PrefetchLandmark, estargz.NoPrefetchLandmark}[rnd.Intn(2)], kind: 'f', mode: 0644})
-		case 3:
-			add(verifEnt{path: verifJoin(dir, verifWh+[]string{"", ".", ".."}[rnd.Intn(3)]), kind: 'f', mode: 0644})
-		}
-	}
-	return spec
-}
-
-// ---------------------------------------------------------------------------------------------
-// The two sides of the composition oracle (independent of the Lean model).
-
-// verifApply applies one source tar to a root filesystem with the OCI image-spec rules.
-func verifApply(fs map[string]verifRef, idx int, spec []verifEnt) {
-	rmTree := func(p string) {
-		delete(fs, p)
-		for q := range fs {
-			if strings.HasPrefix(q, p+"/") {
-				delete(fs, q)
-			}
-		}
-	}
-	// whiteouts and opaque markers act on the lower layers only
-	for _, e := range spec {
-		d, n := verifParent(e.path)
-		if n == verifMarker {
-			for q := range fs {
-				if d == "" || strings.HasPrefix(q, d+"/") {
-					delete(fs, q)
-				}
-			}
-		}
-	}
-	for _, e := range spec {
-		d, n := verifParent(e.path)
-		if n != verifMarker && strings.HasPrefix(n, verifWh) {
-			rmTree(verifJoin(d, n[len(verifWh):]))
-		}
-	}
-	for _, e := range spec {
-		d, n := verifParent(e.path)
-		if strings.HasPrefix(n, verifWh) || (d == "" && verifHiddenRoot(n)) {
-			continue
-		}
-		if e.kind == 'd' {
-			if old, ok := fs[e.path]; ok && old.typ != syscall.S_IFDIR {
-				rmTree(e.path)
-			}
-			fs[e.path] = verifRef{typ: syscall.S_IFDIR, layer: idx}
-			continue
-		}
-		rmTree(e.path)
-		fs[e.path] = verifRef{typ: verifTypeOf(e.kind), layer: idx}
-	}
-}
-
-// verifMerge merges the served lower directories (top first) with the overlayfs rules of the kernel
-// documentation: upper hides lower, chr 0/0 hides and is not shown, an opaque directory does not
-// merge with the directories below it, directories merge, a non-directory ends the search.
-func verifMerge(stack []*verifServed, prefix, kx string, res map[string]verifRef) {
-	names := map[string]bool{}
-	for _, d := range stack {
-		for n := range d.kids {
-			names[n] = true
-		}
-	}
-	for name := range names {
-		var sub []*verifServed
-		for _, d := range stack {
-			k := d.kids[name]
-			if k == nil {
-				continue
-			}
-			if k.typ == syscall.S_IFCHR && k.rdev == 0 {
-				break // whiteout
-			}
-			if k.typ != syscall.S_IFDIR {
-				if len(sub) == 0 {
-					res[verifJoin(prefix, name)] = verifRef{typ: k.typ, layer: k.layer}
-				}
-				break
-			}
-			sub = append(sub, k)
-			if k.opaque[kx] {
-				break
-			}
-		}
-		if len(sub) > 0 {
-			res[verifJoin(prefix, name)] = verifRef{typ: syscall.S_IFDIR, layer: sub[0].layer}
-			verifMerge(sub, verifJoin(prefix, name), kx, res)
-		}
-	}
-}
-
-func verifRefString(r verifRef, ok bool) string {
-	if !ok {
-		return "none"
-	}
-	if r.typ == syscall.S_IFDIR {
-		return fmt.Sprintf("dir L%d", r.layer)
-	}
-	return fmt.Sprintf("file L%d", r.layer)
-}
-
-// stackLayerLine dumps the layer as the metadata reader shows it (the input of the model's `serve`
-// and `ociApply`).
-func (h *verifC07) stackLayerLine(b *verifBuilt) string {
-	var sb []string
-	var walk func(id uint32, p string)
-	walk = func(id uint32, p string) {
-		a, err := b.md.GetAttr(id)
+	dgst := digest.FromString(fmt.Sprintf("layer-%d-%d", base, sgz.Size()))
+	mk := func() *node {
+		// exactly what (*layer).RootNode does
+		rn, err := newNode(dgst, rr, blob, base, opq, passThroughConfig{}, false)
 		if err != nil {
-			h.t.Fatalf("GetAttr: %v", err)
+			t.Fatalf("newNode: %v", err)
 		}
-		kind := "f"
-		if a.Mode.IsDir() {
-			kind = "d"
-		}
-		sb = append(sb, fmt.Sprintf("%s:%s:%d:%d:%d:%s", verifHex(p), kind, id, fileModeToSystemMode(a.Mode),
-			uint32(unix.Mkdev(uint32(a.DevMajor), uint32(a.DevMinor))), verifXattrsString(a.Xattrs)))
-		if kind != "d" {
-			return
-		}
-		type kid struct {
-			name string
-			id   uint32
-		}
-		var ks []kid
-		b.md.ForeachChild(id, func(name string, cid uint32, mode os.FileMode) bool {
-			ks = append(ks, kid{name, cid})
-			return true
-		})
-		sort.Slice(ks, func(i, j int) bool { return ks[i].name < ks[j].name })
-		for _, k := range ks {
-			walk(k.id, verifJoin(p, k.name))
-		}
+		fusefs.NewNodeFS(rn, &fusefs.Options{}) // initializes the root inode
+		return rn.(*node)
 	}
-	walk(b.md.RootID(), "")
-	return strings.Join(sb, ";")
-}
-
-func (h *verifC07) runStack(nlayers int) {
-	out, rnd := h.out, h.rnd
-	kx := []string{"trusted", "user"}[rnd.Intn(2)]
-	kxName := kx + ".overlay.opaque"
-	var om OverlayOpaqueType
-	if rnd.Intn(2) == 0 {
-		om = OverlayOpaqueAll
-	} else if kx == "trusted" {
-		om = OverlayOpaqueTrusted // what service.NewFileSystem picks when userxattr is not needed
-	} else {
-		om = OverlayOpaqueUser
+	root := mk()
+	return &verifc07.Served{
+		Root:       root,
+		FreshRoot:  func() fusefs.InodeEmbedder { return mk() },
+		Meta:       rr.Metadata(),
+		Digest:     dgst.String(),
+		Size:       size,
+		Fetched:    func() int64 { return blob.fetchedSize },
+		SetFetched: func(n int64) { blob.fetchedSize = n },
+		Report:     func(err error) { root.fs.s.report(err) },
+		Close:      func() { md.Close() },
 	}
-	out.Comment(fmt.Sprintf("stack of %d layers, kernel reads %s, served mode %s", nlayers, kxName, verifOmNames[om]))
-	applied := map[string]verifRef{}
-	var served []*verifServed // bottom first
-	var builts []*verifBuilt
-	shape := ""
-	for i := 1; i <= nlayers; i++ {
-		spec := h.genLayer(applied, verifGenOpts{stack: true})
-		b := h.build(spec, uint32(i), om, int64(100+rnd.Intn(1000)), int64(rnd.Intn(100)), nil)
-		builts = append(builts, b)
-		served = append(served, h.exploreLayer(b, i, []string{kxName}))
-		verifApply(applied, i, spec)
-		for _, e := range spec {
-			_, n := verifParent(e.path)
-			switch {
-			case n == verifMarker:
-				shape += "o"
-			case strings.HasPrefix(n, verifWh):
-				shape += "w"
-			}
-		}
-		shape += fmt.Sprintf("%d/", len(spec))
-	}
-	out.Emit(fmt.Sprintf("stk.begin %s %s", kx, verifOmNames[om]), "ok")
-	for _, b := range builts {
-		out.Emit("stk.layer "+h.stackLayerLine(b), "ok")
-	}
-	merged := map[string]verifRef{}
-	var stack []*verifServed
-	for i := len(served) - 1; i >= 0; i-- {
-		stack = append(stack, served[i])
-		if served[i].opaque[kxName] {
-			break
-		}
-	}
-	verifMerge(stack, "", kxName, merged)
-	// ---- oracle: merged view == applied tars ----
-	paths := map[string]bool{}
-	for p := range merged {
-		paths[p] = true
-	}
-	for p := range applied {
-		paths[p] = true
-	}
-	var ps []string
-	for p := range paths {
-		ps = append(ps, p)
-	}
-	sort.Strings(ps)
-	specs := ""
-	for i, b := range builts {
-		specs += fmt.Sprintf(" L%d=[%s]", i+1, verifSpecString(b.spec))
-	}
-	for _, p := range ps {
-		m, mok := merged[p]
-		a, aok := applied[p]
-		if mok != aok || m != a {
-			h.fail("merged-ne-applied", fmt.Sprintf("path %q: overlay of the served layers gives %s, applying the tars gives %s; kernel xattr %s mode %s;%s",
-				p, verifRefString(m, mok), verifRefString(a, aok), kxName, verifOmNames[om], specs))
-			break
-		}
-	}
-	// correspondence with the model's overlayMerge / ociApply on existing and non-existing paths
-	extra := []string{"nonexistent", ".wh.a", "a/" + verifMarker, estargz.NoPrefetchLandmark, estargz.TOCTarName}
-	for _, p := range ps {
-		if rnd.Intn(4) == 0 {
-			extra = append(extra, p+"/zz", verifJoin(p, verifWh+"a"))
-		}
-	}
-	for _, p := range append(ps, extra...) {
-		m, mok := merged[p]
-		a, aok := applied[p]
-		ms, as := verifRefString(m, mok), verifRefString(a, aok)
-		out.Emit("stk.merged "+verifHex(p), ms)
-		out.Emit("stk.applied "+verifHex(p), as)
-		out.Count("stack-path")
-	}
-	out.Count(fmt.Sprintf("stack-%d", nlayers))
-	out.Distinct("stack/" + kx + "/" + verifOmNames[om] + "/" + shape)
-	for _, b := range builts {
-		b.close()
-	}
-}
-
-func (h *verifC07) runSingle(spec []verifEnt, label string) {
-	rnd := h.rnd
-	om := []OverlayOpaqueType{OverlayOpaqueAll, OverlayOpaqueTrusted, OverlayOpaqueUser}[rnd.Intn(3)]
-	base := []uint32{0, 1, 100, 7, 0xffffffff, uint32(rnd.Uint64())}[rnd.Intn(6)]
-	size := int64(1 + rnd.Intn(5000))
-	if rnd.Intn(25) == 0 {
-		size = 0
-	}
-	var prio []string
-	explicit := map[string]bool{"": true}
-	for _, e := range spec {
-		if e.kind == 'd' {
-			explicit[e.path] = true
-		}
-	}
-	for _, e := range spec {
-		d, n := verifParent(e.path)
-		ok := e.kind == 'f' && !strings.HasPrefix(n, verifWh) && !(d == "" && verifHiddenRoot(n))
-		for a := d; ok && a != ""; a, _ = verifParent(a) {
-			ok = explicit[a] // the builder's prioritized-file sort needs every parent directory as a tar entry
-		}
-		if ok && rnd.Intn(6) == 0 {
-			prio = append(prio, e.path)
-		}
-	}
-	h.out.Comment(fmt.Sprintf("%s store=%s mode=%s base=%d prioritized=%d spec=[%s]", label, h.sname, verifOmNames[om], base, len(prio), verifSpecString(spec)))
-	b := h.build(spec, base, om, size, int64(rnd.Intn(int(size)+1)), prio)
-	h.exploreLayer(b, 0, nil)
-	b.close()
-	nwh, nopq := 0, 0
-	for _, e := range spec {
-		_, n := verifParent(e.path)
-		if n == verifMarker {
-			nopq++
-		} else if strings.HasPrefix(n, verifWh) {
-			nwh++
-		}
-	}
-	h.out.Distinct(fmt.Sprintf("single/%s/%d/%d/%d/%s", verifOmNames[om], len(spec), nwh, nopq, verifSpecString(spec)))
-	h.out.Count("layer")
-}
-
-func verifF(p string) verifEnt { return verifEnt{path: p, kind: 'f', data: "x", mode: 0644} }
-func verifD(p string) verifEnt { return verifEnt{path: p, kind: 'd', mode: 0755} }
-
-// hand-written scenarios (run before the random ones)
-func verifScenarios() [][]verifEnt {
-	return [][]verifEnt{
-		{verifD("foo"), verifF("foo/bar.txt"), verifF("foo/.wh.foo.txt")},
-		{verifD("foo"), verifF("foo/bar.txt"), verifF("foo/.wh.bar.txt")},
-		{verifD("foo"), verifF("foo/" + verifMarker)},
-		{verifD("foo"), verifF("foo/" + verifMarker), verifF("foo/bar.txt"), verifF("foo/.wh.gone")},
-		{verifF(verifMarker), verifF("a"), verifF(".wh.b")},
-		{{path: "foo", kind: 'd', mode: 0755, xattrs: map[string]string{"user.foo": "bar", "trusted.overlay.opaque": "n"}}, verifF("foo/" + verifMarker)},
-		{{path: "foo", kind: 'd', mode: 0755, xattrs: map[string]string{"user.overlay.opaque": "y"}}, verifF("foo/a")},
-		{verifF(estargz.PrefetchLandmark), verifF(estargz.NoPrefetchLandmark), verifF(estargz.TOCTarName), verifD("foo"),
-			verifF("foo/" + estargz.PrefetchLandmark), verifF("foo/" + estargz.NoPrefetchLandmark), verifF("foo/" + estargz.TOCTarName)},
-		{verifF("a/b/c/d"), verifF("a/b/.wh.c2"), verifF("a/" + verifMarker)},
-		{verifF("h1"), {path: "h2", kind: 'h', target: "h1"}, verifD("d"), {path: "d/h3", kind: 'h', target: "h1"}, verifF("d/.wh.h1")},
-		{{path: "c00", kind: 'c', major: 0, minor: 0}, {path: "c15", kind: 'c', major: 1, minor: 5}, verifF(".wh.c15"), verifF(".wh.zz")},
-		{verifD("both"), verifF("both/a"), verifF(".wh.both")}, // outside the composition domain, still served consistently
-		{verifF(".wh..wh"), verifF(".wh.wh."), verifF("..wh.a"), verifF(".wh"), verifF("x.wh.y")},
-		{},
-		verifBigScenario("big"),
-		verifBigScenario(""),
-		verifBigScenario("a/b"),
-	}
-}
-
-// verifBigScenario: a directory with 51 children: 30 plain files, 10 names that have both a real entry
-// and a whiteout, and a lone whiteout.
-func verifBigScenario(dir string) []verifEnt {
-	var spec []verifEnt
-	for a := dir; a != ""; a, _ = verifParent(a) {
-		spec = append([]verifEnt{verifD(a)}, spec...)
-	}
-	for i := 0; i < 30; i++ {
-		spec = append(spec, verifF(verifJoin(dir, fmt.Sprintf("p%02d", i))))
-	}
-	for i := 0; i < 10; i++ {
-		// whiteout before or after the real entry in the tar, names spread over the sort order
-		x := fmt.Sprintf("%c-both%d", "amz"[i%3], i)
-		if i%2 == 0 {
-			spec = append(spec, verifF(verifJoin(dir, x)), verifF(verifJoin(dir, verifWh+x)))
-		} else {
-			spec = append(spec, verifF(verifJoin(dir, verifWh+x)), verifF(verifJoin(dir, x)))
-		}
-	}
-	return append(spec, verifF(verifJoin(dir, ".wh.gone")))
-}
-
-func verifFindingScenarios() [][]verifEnt {
-	return [][]verifEnt{
-		{verifD("foo"), verifF("foo/.wh..wh.foo")},
-		{verifD("foo"), verifF("foo/.wh..wh.foo"), verifF("foo/.wh.foo")},
-		{verifD("foo"), verifF("foo/.wh." + verifMarker)},
-		{verifF(".wh." + estargz.PrefetchLandmark)},
-		{verifF(".wh." + estargz.NoPrefetchLandmark), verifF("a")},
-		{verifD("foo"), verifF("foo/.wh.")},
-		{verifD("foo"), verifF("foo/.wh..")},
-		{verifD("foo"), verifF("foo/.wh...")},
-	}
-}
-
-func verifC07Run(t *testing.T, sname string, store metadata.Store, findings bool) {
-	log.L.Logger.SetOutput(io.Discard)
-	h := &verifC07{t: t, out: verifutil.OpenOut(), rnd: verifutil.NewRand(verifutil.Seed()), store: store, sname: sname, findings: findings}
-	defer h.out.Close()
-	n := verifutil.EnvInt("VERIF_N", 60)
-	h.out.Emit("consts", fmt.Sprintf("wh=%s opq=%s state=%s pl=%s npl=%s toc=%s xall=%s xtrusted=%s xuser=%s val=%s ifchr=%d sfmode=%d sdmode=%d",
-		verifHex(whiteoutPrefix), verifHex(whiteoutOpaqueDir), verifHex(stateDirName), verifHex(estargz.PrefetchLandmark),
-		verifHex(estargz.NoPrefetchLandmark), verifHex(estargz.TOCTarName), verifHexList(opaqueXattrs[OverlayOpaqueAll]),
-		verifHexList(opaqueXattrs[OverlayOpaqueTrusted]), verifHexList(opaqueXattrs[OverlayOpaqueUser]), verifHex(opaqueXattrValue),
-		syscall.S_IFCHR, statFileMode, stateDirMode))
-	if findings {
-		for i, s := range verifFindingScenarios() {
-			h.runSingle(s, fmt.Sprintf("finding-scenario %d", i))
-		}
-		for i := 0; i < n; i++ {
-			h.runSingle(h.genLayer(nil, verifGenOpts{findings: true}), fmt.Sprintf("finding-random %d", i))
-		}
-		return
-	}
-	for i, s := range verifScenarios() {
-		h.runSingle(s, fmt.Sprintf("scenario %d", i))
-	}
-	for i := 0; i < n; i++ {
-		h.runSingle(h.genLayer(nil, verifGenOpts{}), fmt.Sprintf("random %d", i))
-	}
-	for i := 0; i < n/3+1; i++ {
-		h.runStack(2 + h.rnd.Intn(3))
-	}
-}
-
-func verifHexList(l []string) string {
-	var s []string
-	for _, x := range l {
-		s = append(s, verifHex(x))
-	}
-	return strings.Join(s, ",")
 }
 
 // TestVerifC07 — main stream (memory metadata store).
-func TestVerifC07(t *testing.T) {
-	verifC07Run(t, "memory", memorymetadata.NewReader, false)
-}
+func TestVerifC07(t *testing.T) { verifc07.Run(t, verifC07Mem{}, false) }
 
 // TestVerifC07Findings — regression stream for the defects repaired by 545b9cc: whiteouts whose target
 // begins with ".wh.", is a landmark name in the root, or is "", "." or "..".  The same oracle runs: such
 // whiteouts must not be listed, and listed <=> lookupable must hold.
-func TestVerifC07Findings(t *testing.T) {
-	verifC07Run(t, "memory", memorymetadata.NewReader, true)
-}
+func TestVerifC07Findings(t *testing.T) { verifc07.Run(t, verifC07Mem{}, true) }
